@@ -540,7 +540,7 @@ func (em *emitter) emitAssignmentNode(node *ast.Assignment) {
 
 		case *ast.Index:
 			exprType := em.typ(v.Expr)
-			expr := em.emitExpr(v.Expr, exprType)
+			expr := em.emitAssignmentOperand(v.Expr, exprType)
 			indexType := intType
 			if exprType.Kind() == reflect.Map {
 				indexType = exprType.Key()
@@ -601,6 +601,46 @@ func (em *emitter) emitAssignmentNode(node *ast.Assignment) {
 		}
 	}
 	em.assignValuesToAddresses(addresses, node.Rhs)
+}
+
+// emitAssignmentOperand emits expr, the operand with type typ of an index
+// expression on the left side of an assignment, and returns its register.
+//
+// If expr is an array reached through a pointer indirection, the register
+// refers to the pointed array and not to a copy of it, so that its elements
+// can be assigned.
+func (em *emitter) emitAssignmentOperand(expr ast.Expression, typ reflect.Type) int8 {
+	if typ.Kind() != reflect.Array {
+		return em.emitExpr(expr, typ)
+	}
+	switch e := expr.(type) {
+	case *ast.UnaryOperator:
+		if e.Op != ast.OperatorPointer {
+			break
+		}
+		// (*p)[i] = v, also in the form p[i] = v
+		ptrType := em.typ(e.Expr)
+		ptr := em.emitExpr(e.Expr, ptrType)
+		if ptr < 0 {
+			// The pointer is in an indirect variable.
+			tmp := em.fb.newRegister(reflect.Pointer)
+			em.changeRegister(false, ptr, tmp, ptrType, ptrType)
+			ptr = tmp
+		}
+		return -ptr
+	case *ast.Index:
+		// a[i][j] = v, where a[i] is an array
+		arrayType := em.typ(e.Expr)
+		if arrayType.Kind() != reflect.Array {
+			break
+		}
+		array := em.emitAssignmentOperand(e.Expr, arrayType)
+		index, kindex := em.emitExprK(e.Index, intType)
+		reg := em.fb.newRegister(reflect.Array)
+		em.fb.emitIndex(kindex, array, index, reg, arrayType, e.Pos(), true)
+		return reg
+	}
+	return em.emitExpr(expr, typ)
 }
 
 // emitImport emits an import node, returning the list of all 'init' functions
